@@ -172,3 +172,88 @@ c.ensure('scope_restored_after_the_call', _rest)
 c.exc_ensure('scope_restored_when_the_call_raises', _rest)
 c.may_raise_other = True
 register(c)
+
+
+# ---- finalize's macro rule (C05, C12): validate_reference / validate_macros_hook ---------------------
+# A reference record whose configurable is seen through its selector only.
+from contracts.a_state import key2, join_slash
+RefV = KRecord('ConfigurableReference', {
+    '_scoped_selector': KStr, '_evaluate': KBool, '_scopes': ScopeList, '_selector': KStr,
+    '_configurable': KRecord('ConfigurableSel', {'selector': KStr}),
+    '_scoped_configurable_fn': KVal}, mutable=False, variant='V')
+
+
+def ref_key(r):
+  return key2(join_slash(r.fields['_scopes']), r.fields['_configurable'].fields['selector'].e)
+
+
+def ref_valid(ns, r, need_bindings, need_eval):
+  return z3.And(z3.Implies(need_bindings, ns['_CONFIG'].dom[ref_key(r)]),
+                z3.Implies(need_eval, r.fields['_evaluate'].e))
+
+
+_MSG = lambda s: isinstance(s, __import__('ast').Assign) and 'err_str' in __import__('ast').unparse(s)
+
+c = Contract('config.py::validate_reference', ['C05', 'C12'])
+c.param('ref', RefV)
+c.param('require_bindings', KBool, default=lambda ex: VBool(True))
+c.param('require_evaluation', KBool, default=lambda ex: VBool(False))
+c.raise_case('invalid', 'ValueError', when=lambda x: z3.Not(ref_valid(
+    x.old, x.a.ref, x.a.require_bindings.e, x.a.require_evaluation.e)))
+c.ensure('returns_only_for_a_bound_and_if_required_evaluated_reference', lambda x: ref_valid(
+    x.old, x.a.ref, x.a.require_bindings.e, x.a.require_evaluation.e))
+c.raises_only_listed = True
+register(c)
+
+c = Contract('config.py::config_str', ['C05'], kind='assumed')
+c.param('max_line_length', KInt, default=lambda ex: sym.VInt(80))
+c.param('continuation_indent', KInt, default=lambda ex: sym.VInt(4))
+c.result = KStr
+c.raises_only_listed = True
+c.assumptions.append('config_str() used to build an error message: pure, does not raise '
+                     '(fix ecf8852; bounded: bC06 `serialises`)')
+register(c)
+
+RefList = KList(RefV)
+c = Contract('config.py::iterate_references', ['C05'], kind='assumed')
+c.param('config', KVal)
+c.param('to', KVal, default=lambda ex: VObj(sym.VAL_NONE))
+c.result = RefList
+c.ensure('functional', lambda x: RefList.box(x.result) == sym.ufun(
+    'references_in', sym.Val, sym.Val, RefList.sort())(x.a.config.e, x.a.to.e))
+c.raises_only_listed = True
+c.assumptions.append('iterate_references(config, to) is a sequence determined by the nested '
+                     'structure of config (recursive generator over arbitrary containers: not in '
+                     'the subset; bounded: bC05 finalize_rejects incl. references nested in '
+                     'lists, tuples, dict keys and values)')
+register(c)
+
+c = Contract('config.py::validate_macros_hook', ['C05', 'C12'])
+c.param('config', KVal)
+c.assume_entry('the_macro_configurable_is_registered', lambda x: M(x.old['_REGISTRY']).dom[
+    sym.str_lit('gin.macro')], "gin's own registrations exist from import time on")
+
+
+def _macro_refs(x):
+  w = sym.ufun('attr_wrapper', sym.Val, sym.Val)(M(x.old['_REGISTRY']).val[sym.str_lit('gin.macro')])
+  return RefList.unbox(sym.ufun('references_in', sym.Val, sym.Val, RefList.sort())(
+      x.a.config.e, w))
+
+
+i_ = z3.Int('i!vm')
+c.ensure('accepts_only_if_every_macro_reference_is_bound_and_evaluated', lambda x: sym.forall(
+    [i_], z3.Implies(z3.And(0 <= i_, i_ < _macro_refs(x).len),
+                     ref_valid(x.old, RefV.unbox(_macro_refs(x).arr[i_]), z3.BoolVal(True),
+                               z3.BoolVal(True))),
+    patterns=[_macro_refs(x).arr[i_]]))
+c.raise_case('some_macro_reference_is_unbound_or_not_evaluated', 'ValueError', ensures=[
+    ('only_if_some_reference_is_invalid', lambda x: z3.Exists([i_], z3.And(
+        0 <= i_, i_ < _macro_refs(x).len, z3.Not(ref_valid(
+            x.old, RefV.unbox(_macro_refs(x).arr[i_]), z3.BoolVal(True), z3.BoolVal(True))))))])
+c.raises_only_listed = True
+c.loop(("iterate_references(config, to=_REGISTRY['gin.macro'].wrapper)", None), [Clause(
+    'references_seen_so_far_are_valid', lambda x, k: sym.forall(
+        [i_], z3.Implies(z3.And(0 <= i_, i_ < k), ref_valid(
+            x.old, RefV.unbox(_macro_refs(x).arr[i_]), z3.BoolVal(True), z3.BoolVal(True))),
+        patterns=[_macro_refs(x).arr[i_]]))])
+register(c)
